@@ -624,6 +624,90 @@ class NestedDictSet(_NoReplay):
         yield "descends_into_existing_child_or_creates_empty", z3.If(existed, z3.BoolVal(kept), z3.BoolVal(created))
         yield "nothing_else_written", len(w) <= 1
 
+@contract("genjax.state:State.eval_jaxpr_state", ["C19"])
+class LeafModeWalk(_NoReplay):
+    """leaf-mode save under a namespace stack of ANY depth: the inline block `current = collected_state; for namespace
+    in namespace_path[:-1]: ...; current[namespace_path[-1]] = value` (extracted mechanically from the interpreter,
+    located by its loop header) is the same walk as _nested_dict_set: each step descends into current[namespace],
+    creating {} iff missing and writing nothing else; the value is stored under the LAST namespace in the node reached"""
+
+    cases = ["prefix", "body", "suffix"]
+
+    def call(self, case):
+        pc = loops.block_pieces(st.State.eval_jaxpr_state, "namespace_path[:-1]")
+        self.pc = pc
+        for nm in ("current", "namespace_path", "value", "self"):
+            if nm not in pc["locals"]:
+                raise EngineLimit("leaf-mode block has no local %r (restructured)" % nm)
+        Has = z3.Function(engine().fresh_name("Has"), Atom, z3.BoolSort())
+        self.Has = Has
+        self.child = {}
+
+        def get(k):
+            key = str(k)
+            if key not in self.child:
+                self.child[key] = {"__old_child__": key}
+            return self.child[key]
+
+        self.cur = SymDict("current", init_has=lambda k: Has(k), init_get=get)
+        base = {n: None for n in pc["locals"]}
+        self.val = value("value")
+        self.ns = atom_sym("namespace")
+        self.last = atom_sym("last_namespace")
+
+        class Path:
+            """namespace_path of arbitrary length: only its last element and its [:-1] prefix are used by the block"""
+
+            def __init__(s, last):
+                s.last = last
+
+            def __getitem__(s, k):
+                if k == -1:
+                    return s.last
+                if isinstance(k, slice) and k.start is None and k.stop == -1 and k.step is None:
+                    return ("<all but the last namespace>",)
+                raise EngineLimit("namespace_path[%r]" % (k,))
+
+            def __bool__(s):
+                return True
+
+        self.path_obj = Path(self.last)
+        if case == "prefix":
+            self.root = {"m": 1}
+            interp = st.State(collected_state=self.root, namespace_stack=[])
+            base.update(self=interp, namespace_path=self.path_obj, value=self.val)
+            kind, locs = self.real(pc["prefix"], **base)
+            _k, it = pc["iter"](**locs)
+            self.iter = it
+            return kind, locs
+        base.update(current=self.cur, namespace_path=self.path_obj, value=self.val)
+        if case == "suffix":
+            return self.real(pc["suffix"], **base)
+        base[pc["targets"][0]] = self.ns
+        return self.real(pc["body"], **base)
+
+    def ensures(self, case, path):
+        yield "does_not_raise", path.outcome == "return"
+        if path.outcome != "return":
+            return
+        kind, payload = path.value
+        if case == "prefix":
+            yield "walk_starts_at_the_collected_state", kind == "fallthrough" and payload["current"] is self.root
+            yield "walk_visits_every_namespace_but_the_last", self.iter == ("<all but the last namespace>",)
+            return
+        if case == "suffix":
+            w = self.cur.writes
+            yield "value_stored_under_the_last_namespace_in_the_reached_node_only", len(w) == 1 and z3.eq(w[0][0], self.last.e) and w[0][1] is self.val
+            return
+        new = payload["current"]
+        existed = self.Has(self.ns.e)
+        w = self.cur.writes
+        created = len(w) == 1 and z3.eq(w[0][0], self.ns.e) and isinstance(w[0][1], dict) and w[0][1] == {} and new is w[0][1]
+        kept = len(w) == 0 and new is self.child.get(str(self.ns.e))
+        yield "descends_into_existing_child_or_creates_empty", z3.If(existed, z3.BoolVal(kept), z3.BoolVal(created))
+        yield "nothing_else_written", len(w) <= 1
+
+
 from vt.contract import canary as _canary  # noqa: E402
 
 _canary(StateScanStep, "inside_namespace", "lane_t_is_the_value_saved_in_iteration_t")
